@@ -625,6 +625,16 @@ def sector_ground_energy(mol, both=False):
     return e_all, e_nopad, pad
 
 
+def sector_spectrum(mol):
+    """all eigenvalues of the active-space Hamiltonian in the target (n_alpha, n_beta) sector (small sizes only)"""
+    nq = mol.n_active_sos
+    (na, nb), _ = target_sector(mol)
+    mat = _jw_matrix(mol.fermionic_hamiltonian, nq)
+    keep = [i for i in range(2 ** nq) if (lambda b: sum(b[0::2]) == na and sum(b[1::2]) == nb)([(i >> (nq - 1 - q)) & 1 for q in range(nq)])]
+    sub = mat[np.ix_(keep, keep)]
+    return [float(x) for x in np.linalg.eigvalsh((sub + sub.conj().T) / 2)]
+
+
 def projected_full_space_energy(mol):
     """Independent 'full CI with the same frozen orbitals': the FULL-space Hamiltonian (nothing folded) restricted to the
     basis states in which every frozen occupied spin-orbital is filled, every frozen virtual one empty, with the full
@@ -693,6 +703,22 @@ def run_pyscf_support(ck):
             ck.notes.setdefault("pyscf_sector_errors", []).append("%s: %r" % (pc["name"], ex))
             continue
         (na, nb), _ = target_sector(mol)
+        if pc["uhf"] and mol.n_electrons == 1:
+            # a one-electron molecule: the UHF and the restricted-open-shell descriptions span the same one-electron space, so the
+            # (1,0)-sector spectra of the two qubit Hamiltonians must coincide (finding repaired by /repo commit f1d9c10: the UHF
+            # integrals could not be built at all)
+            try:
+                rmol = SecondQuantizedMolecule(pc["xyz"], pc["q"], pc["spin"], basis="sto-3g", frozen_orbitals=pc["frozen"], uhf=False)
+                su = sector_spectrum(mol)
+                sr = sector_spectrum(rmol)
+                if len(su) != len(sr) or max(abs(a - b) for a, b in zip(su, sr)) > 1e-7 or abs(mol.mf_energy - rmol.mf_energy) > 1e-7:
+                    ck.violation("C04/pyscf/uhf/one-electron/spectrum-differs-from-restricted",
+                                 "%s: (1,0)-sector spectrum with uhf=True %s, restricted %s; mean-field energies %.9f / %.9f"
+                                 % (pc["name"], [round(x, 8) for x in su], [round(x, 8) for x in sr], mol.mf_energy, rmol.mf_energy),
+                                 {"kind": "pyscf", "case": pcj, "what": "sector"}, found_input=True)
+            except Exception as ex:
+                ck.violation("C04/pyscf/uhf/one-electron/restricted-comparison-raises/%s" % type(ex).__name__,
+                             "%s: %r" % (pc["name"], ex), {"kind": "pyscf", "case": pcj, "what": "sector"}, found_input=True)
         if pad and e0 - e_all > 1e-7:
             # the comparisons below continue with the padding orbitals kept empty (e0), so that this input class does not
             # hide another failure
